@@ -111,6 +111,26 @@ CHECKS = {
    note=TRUST + 'Assumed: the file-system contract above; link targets are not links themselves (chains outside the bound); targets lie inside the root tree or are dangling '
         '(targets above / outside the root — where the depth arithmetic can underflow — are outside the bound); no depth window; check_file summarised. Bounds: 4/5 nodes.',
    technique=TECH),
+ 'C10': dict(
+   level='model_checking', design_ref='DESIGN.md §5 C10',
+   text='The whole real parser (Parser::parse with every parse_* method, Field::from_str, Function::from_str, Op::from ...) is executed symbolically from MIR on '
+        'symbolic lexem vectors (each position a solver variable over an alphabet of lexems; six families: the full alphabet and clause-specific alphabets behind fixed '
+        'prefixes). Every path ending in a panic obligation (index, subtraction, unwrap / expect) or exceeding every loop bound derivable from the token count (no progress '
+        '= hang) yields a token vector that is run through the real binary; what reproduces there (status 101 / no termination) is a violation. ArithmeticOp::calc on '
+        'arbitrary operands is included for evaluation-time crashes.',
+   note=TRUST + 'Assumed: the lexer is replaced by the symbolic lexem vector (the lexer loop over raw bytes is not covered); UserDirs::new = None. Bounds (symbolic tokens after the '
+        'prefix): full alphabet 2 (quick) / 4 (thorough); select, where, tail 3 / 5; ORDER BY, GROUP BY 3 / 4; 60 s per family in the quick tier (an unexhausted length is noted '
+        'in the evidence). Crashes of scalar functions on ill-typed arguments and of date / boolean literals are not covered by this check.',
+   technique=TECH),
+ 'C15': dict(
+   level='model_checking', design_ref='DESIGN.md §5 C15',
+   text='Real MIR, z3: (tree) symbolic token sequences over three columns, + - * / %, ( ) and unary minus through the real Parser::parse_expr: the parsed tree is the '
+        'precedence-climbing tree of the textbook; (calc) ArithmeticOp::calc on symbolic f64 / integer operands is the IEEE operation named and never panics; (cache) '
+        'Searcher::get_column_expr_value with the per-row value cache and the real Expr::fmt: the value of an expression evaluated after another one into the same row map equals '
+        'its value in an empty map; (minus) a leading minus negates literals and columns.',
+   note=TRUST + 'Assumed: get_field_value summarised as symbolic 16-bit integers per column; the lexer decides which characters are operators (outside); f64 % is fmod. '
+        'Bounds: expressions of <= 5 (quick) / 7 (thorough) tokens; cache: ordered pairs from 8 representative expressions. Scalar function values are C16.',
+   technique=TECH),
 }
 REASON_TODO = 'check not built yet in this session (planned: see DESIGN.md §5); not claimed until it exists'
 NA = {}
